@@ -353,7 +353,7 @@ def run(F, R, tier):
         R.ob("C13-c", "embedded module info is only used for module (non-asset) loads", gated,
              "the manifest shortcut is taken for asset imports too: a file imported as text/bytes would become a full module with its imports followed, unlike the parsing path", where(sc[0]))
     hc = F.body("graph::Builder::handle_jsr_registry_pending_content_loads")
-    src = [n for n in hc["_nodes"] if n["k"] == "Assign" and peel(n["l"]).get("field") == "source"]
+    src = [n for n in hc["_nodes"] if n["k"] == "Assign" and field_of(n["l"]) == "source"]
     R.ob("C13-c", "the deferred load fills in the source of Js / Json / Wasm modules", len(src) >= 3, "only %d `module.source = ..` assignments" % len(src), hc["file"])
     an = [b for b in F.bodies if "ProvidedModuleAnalyzer" in b["path"] and b["path"].endswith("::analyze")]
     R.ob("C13-c", "the provided analyzer returns the embedded info", len(an) == 1 and any(n.get("k") == "MethodCall" and n["name"] == "take" for n in an[0]["_nodes"]), "shape changed", ls["file"])
